@@ -294,7 +294,7 @@ Proof.
     intros i [a [b c]] E. unfold zip3 in E. apply nth_error_combine in E as [E1 E2]. apply nth_error_combine in E2 as [E2 E3].
     unfold meta_at. cbn [fr_row_ids fr_created_at fr_updated_at]. rewrite Nat2N.id.
     rewrite (nth_error_nth _ _ 1 E2), (nth_error_nth _ _ 1 E3). f_equal.
-    rewrite nth_error_map in E1. destruct (nth_error r1 i); cbn in E1; [exact E1 | discriminate].
+    rewrite nth_error_map in E1. destruct (nth_error r1 i); cbn in E1; [inversion E1; reflexivity | discriminate].
 Qed.
 
 (* tables without stable row ids: every row shows (no row id, 1, 1) *)
@@ -353,4 +353,240 @@ Proof.
     + apply map_const_len. apply len_n_length. rewrite B, S. apply total_live_len.
     + intros f I. destruct (W f I) as [C Sh]. unfold shape_ok in Sh. apply andb_true_iff in Sh as [S1 S2].
       repeat split; [apply frag_consistent_plain; exact C | destruct (fr_created_at f); [discriminate | reflexivity] | destruct (fr_updated_at f); [discriminate | reflexivity]].
+Qed.
+
+(* ================================================================ E. the commit step on the fragment list *)
+Definition not_in (ids : list N) (f : Fragment) : bool := negb (n_mem (fr_id f) ids).
+
+Lemma filter_perm {A} (p : A -> bool) l1 l2 : Permutation l1 l2 -> Permutation (filter p l1) (filter p l2).
+Proof.
+  induction 1 as [| x l l' _ IH | x y l | l l' l'' _ IH1 _ IH2]; cbn [filter].
+  - apply Permutation_refl.
+  - destruct (p x); [apply perm_skip|]; exact IH.
+  - destruct (p x), (p y); try apply Permutation_refl. apply perm_swap.
+  - eapply Permutation_trans; eassumption.
+Qed.
+Lemma filter_filter {A} (p q : A -> bool) l : filter p (filter q l) = filter (fun x => q x && p x) l.
+Proof. induction l as [|x r IH]; [reflexivity|]. cbn [filter]. destruct (q x); cbn [filter andb]; [destruct (p x)|]; rewrite IH; reflexivity. Qed.
+Lemma filter_none {A} (p : A -> bool) l : (forall x, In x l -> p x = false) -> filter p l = [].
+Proof. induction l as [|x r IH]; intro H; [reflexivity|]. cbn [filter]. rewrite (H x (or_introl eq_refl)). apply IH. intros y I. apply H. right. exact I. Qed.
+Lemma filter_all {A} (p : A -> bool) l : (forall x, In x l -> p x = true) -> filter p l = l.
+Proof. intro H. apply filter_all_true. apply forallb_forall. exact H. Qed.
+
+Lemma not_in_app a b f : not_in (a ++ b) f = not_in a f && not_in b f.
+Proof.
+  unfold not_in, n_mem. rewrite existsb_app, negb_orb. reflexivity.
+Qed.
+
+(* find by id in a list with distinct ids *)
+Lemma find_id_some l i f : find (fun g => fr_id g =? i) l = Some f -> In f l /\ fr_id f = i.
+Proof. intro H. apply find_some in H as [A B]. apply N.eqb_eq in B. split; assumption. Qed.
+Lemma find_id_unique : forall l f, NoDup (frag_ids l) -> In f l -> find (fun g => fr_id g =? fr_id f) l = Some f.
+Proof.
+  induction l as [|g r IH]; intros f ND I; [destruct I|]. unfold frag_ids in ND. cbn [map] in ND. inversion ND; subst.
+  cbn [find]. destruct I as [E|I].
+  - subst g. rewrite N.eqb_refl. reflexivity.
+  - destruct (fr_id g =? fr_id f) eqn:E; [|apply IH; assumption].
+    apply N.eqb_eq in E. exfalso. apply H1. rewrite E. apply in_map. exact I.
+Qed.
+Lemma find_id_none l i : ~ In i (frag_ids l) -> find (fun g => fr_id g =? i) l = None.
+Proof.
+  intro H. destruct (find (fun g => fr_id g =? i) l) as [f|] eqn:E; [|reflexivity].
+  apply find_id_some in E as [A B]. exfalso. apply H. subst i. apply in_map. exact A.
+Qed.
+
+Lemma lookup_old_app l a b : lookup_old l (a ++ b) = lookup_old l a ++ lookup_old l b.
+Proof. unfold lookup_old. apply flat_map_app_. Qed.
+Lemma lookup_old_flat l (groups : list RewriteGroup) :
+  lookup_old l (flat_map rg_old groups) = flat_map (fun g => lookup_old l (rg_old g)) groups.
+Proof. induction groups as [|g r IH]; [reflexivity|]. cbn [flat_map]. rewrite lookup_old_app, IH. reflexivity. Qed.
+Lemma lookup_old_self l mid : (forall f, In f mid -> find (fun g => fr_id g =? fr_id f) l = Some f) -> lookup_old l (frag_ids mid) = mid.
+Proof.
+  induction mid as [|f r IH]; intro H; [reflexivity|]. unfold lookup_old, frag_ids in *. cbn [map flat_map].
+  rewrite (H f (or_introl eq_refl)). cbn [app]. f_equal. apply IH. intros g I. apply H. right. exact I.
+Qed.
+(* two lists with distinct ids that hold the same fragments under the ids asked for *)
+Lemma lookup_old_same l1 l2 ids :
+  NoDup (frag_ids l1) -> NoDup (frag_ids l2) ->
+  (forall i, In i ids -> In i (frag_ids l2) /\ forall f, In f l2 -> fr_id f = i -> In f l1) ->
+  lookup_old l1 ids = lookup_old l2 ids.
+Proof.
+  intros N1 N2 H. unfold lookup_old. induction ids as [|i r IH]; [reflexivity|]. cbn [flat_map].
+  rewrite IH by (intros j J; apply H; right; exact J). f_equal.
+  destruct (H i (or_introl eq_refl)) as [I2 K]. apply in_map_iff in I2 as [f [Ef If]].
+  pose proof (find_id_unique l2 f N2 If) as F2. rewrite Ef in F2. rewrite F2.
+  pose proof (find_id_unique l1 f N1 (K f If Ef)) as F1. rewrite Ef in F1. rewrite F1. reflexivity.
+Qed.
+
+Lemma flat_map_ext_in_ {A B} (f g : A -> list B) l : (forall x, In x l -> f x = g x) -> flat_map f l = flat_map g l.
+Proof. induction l as [|x r IH]; intro H; [reflexivity|]. cbn [flat_map]. rewrite (H x (or_introl eq_refl)), IH; [reflexivity | intros y I; apply H; right; exact I]. Qed.
+Lemma find_app_ {A} (p : A -> bool) l1 l2 : find p (l1 ++ l2) = match find p l1 with Some x => Some x | None => find p l2 end.
+Proof. induction l1 as [|x r IH]; [reflexivity|]. cbn [app find]. destruct (p x); [reflexivity | exact IH]. Qed.
+
+(* removing by id and looking up by id split a list with distinct ids *)
+Lemma perm_filter_lookup : forall ids l,
+  NoDup ids -> NoDup (frag_ids l) -> (forall i, In i ids -> In i (frag_ids l)) ->
+  Permutation l (filter (not_in ids) l ++ lookup_old l ids).
+Proof.
+  induction ids as [|i r IH]; intros l Ni Nl H.
+  - unfold lookup_old. cbn [flat_map]. rewrite app_nil_r, filter_all; [apply Permutation_refl | intros; reflexivity].
+  - inversion Ni; subst. pose proof (H i (or_introl eq_refl)) as I. apply in_map_iff in I as [f [Ef If]].
+    apply in_split in If as [l1 [l2 El]]. subst l.
+    assert (Nl' : NoDup (frag_ids (l1 ++ l2))).
+    { unfold frag_ids in *. rewrite map_app in *. cbn [map] in Nl. eapply NoDup_remove_1. exact Nl. }
+    assert (Hf : ~ In (fr_id f) (frag_ids (l1 ++ l2))).
+    { unfold frag_ids in *. rewrite map_app in *. cbn [map] in Nl. apply NoDup_remove_2 in Nl. exact Nl. }
+    assert (F : forall g, In g (l1 ++ l2) -> fr_id g <> i).
+    { intros g I E. apply Hf. rewrite Ef, <- E. apply in_map. exact I. }
+    (* filter *)
+    assert (FL : filter (not_in (i :: r)) (l1 ++ f :: l2) = filter (not_in r) (l1 ++ l2)).
+    { rewrite !filter_app. cbn [filter]. replace (not_in (i :: r) f) with false.
+      - f_equal; apply filter_ext_in; intros g I; unfold not_in, n_mem; cbn [existsb];
+          (replace (fr_id g =? i) with false; [reflexivity | symmetry; apply N.eqb_neq; intro E; apply (F g); [apply in_or_app; auto | auto]]).
+      - unfold not_in, n_mem. cbn [existsb]. rewrite Ef, N.eqb_refl. reflexivity. }
+    (* lookup *)
+    assert (LK : lookup_old (l1 ++ f :: l2) (i :: r) = f :: lookup_old (l1 ++ l2) r).
+    { unfold lookup_old. cbn [flat_map].
+      pose proof (find_id_unique (l1 ++ f :: l2) f Nl (in_elt f l1 l2)) as Ff. rewrite Ef in Ff. rewrite Ff. cbn [app]. f_equal.
+      apply flat_map_ext_in_. intros j J.
+      assert (j <> i) by (intro E; subst j; contradiction).
+      rewrite !find_app_. cbn [find]. replace (fr_id f =? j) with false by (symmetry; apply N.eqb_neq; congruence). reflexivity. }
+    rewrite FL, LK.
+    eapply Permutation_trans; [apply Permutation_sym; apply Permutation_middle|].
+    eapply Permutation_trans; [|apply Permutation_middle]. apply perm_skip.
+    apply IH; [assumption | exact Nl' |].
+    intros j J. specialize (H j (or_intror J)). unfold frag_ids in *. rewrite map_app in *. cbn [map] in H.
+    apply in_app_iff in H as [K|[K|K]]; [apply in_or_app; left; exact K | exfalso; subst j; rewrite Ef in *; contradiction | apply in_or_app; right; exact K].
+Qed.
+
+Lemma position_of_split id : forall l k, position_of id l = Some k ->
+  exists pre f post, l = pre ++ f :: post /\ length pre = k /\ fr_id f = id.
+Proof.
+  induction l as [|a l IH]; intros k H; cbn [position_of] in H; [discriminate|].
+  destruct (fr_id a =? id) eqn:E.
+  - inversion H; subst. exists [], a, l. split; [reflexivity | split; [reflexivity | apply N.eqb_eq; exact E]].
+  - destruct (position_of id l) as [n|] eqn:P; [|discriminate]. inversion H; subst.
+    destruct (IH n eq_refl) as [pre [f [post [A [B C]]]]]. exists (a :: pre), f, post. subst l. split; [reflexivity | split; [cbn [length]; lia | exact C]].
+Qed.
+Lemma contiguous_from_true : forall ids l, contiguous_from l ids = Some true ->
+  exists mid post, l = mid ++ post /\ frag_ids mid = ids.
+Proof.
+  induction ids as [|i r IH]; intros l H; cbn [contiguous_from] in H.
+  - exists [], l. split; reflexivity.
+  - destruct l as [|f l']; [discriminate|]. destruct (fr_id f =? i) eqn:E; [|discriminate]. apply N.eqb_eq in E.
+    destruct (IH l' H) as [mid [post [A B]]]. exists (f :: mid), post. subst l'. split; [reflexivity|].
+    unfold frag_ids in *. cbn [map]. rewrite E, B. reflexivity.
+Qed.
+
+Lemma filter_segment pre mid post :
+  NoDup (frag_ids (pre ++ mid ++ post)) -> filter (not_in (frag_ids mid)) (pre ++ mid ++ post) = pre ++ post.
+Proof.
+  intro ND. unfold frag_ids in ND. rewrite !map_app in ND. rewrite !filter_app.
+  assert (A : forall f, In f pre -> not_in (frag_ids mid) f = true).
+  { intros f I. unfold not_in. apply negb_true_iff. apply n_mem_false. intro J.
+    eapply NoDup_app_disj; [exact ND | apply in_map; exact I | apply in_or_app; left; exact J]. }
+  assert (B : forall f, In f post -> not_in (frag_ids mid) f = true).
+  { intros f I. unfold not_in. apply negb_true_iff. apply n_mem_false. intro J.
+    apply NoDup_app_r in ND. eapply NoDup_app_disj; [exact ND | exact J | apply in_map; exact I]. }
+  assert (C : forall f, In f mid -> not_in (frag_ids mid) f = false).
+  { intros f I. unfold not_in. apply negb_false_iff. apply n_mem_In. apply in_map. exact I. }
+  rewrite (filter_all _ pre A), (filter_all _ post B), (filter_none _ mid C). reflexivity.
+Qed.
+
+Lemma fwi_content {X} (c : Fragment -> list X) (Hc : forall f i, c (set_id f i) = c f) :
+  forall l fid, flat_map c (fst (fragments_with_ids l fid)) = flat_map c l.
+Proof.
+  induction l as [|f r IH]; intro fid; [reflexivity|]. cbn [fragments_with_ids]. destruct (fr_id f =? 0).
+  - specialize (IH (fid + 1)). destruct (fragments_with_ids r (fid + 1)). cbn [fst flat_map] in *. rewrite Hc, IH. reflexivity.
+  - specialize (IH fid). destruct (fragments_with_ids r fid). cbn [fst flat_map] in *. rewrite IH. reflexivity.
+Qed.
+
+(* THE COMMIT LEMMA on the fragment list: the result is the fragments outside the groups plus the new fragments
+   (ids assigned), for ANY number of groups in ANY order, contiguous or not *)
+Lemma hrf_struct {X} (c : Fragment -> list X) (Hc : forall f i, c (set_id f i) = c f) :
+  forall groups final fid final' fid',
+  handle_rewrite_fragments final groups fid = Ok (final', fid') ->
+  NoDup (frag_ids final) -> NoDup (reserved_ids groups) ->
+  (forall x, In x (frag_ids final) -> ~ In x (reserved_ids groups)) ->
+  (forall x, In x (frag_ids final) -> x < fid) ->
+  (forall x, In x (reserved_ids groups) -> x < fid) ->
+  NoDup (flat_map rg_old groups) ->
+  (forall i, In i (flat_map rg_old groups) -> In i (frag_ids final)) ->
+  exists N, Permutation final' (filter (not_in (flat_map rg_old groups)) final ++ N)
+    /\ (forall x, In x (frag_ids N) -> In x (reserved_ids groups) \/ (fid <= x /\ x < fid'))
+    /\ flat_map c N = flat_map c (flat_map rg_new groups)
+    /\ NoDup (frag_ids final') /\ fid <= fid'.
+Proof.
+  induction groups as [|g rest IH]; intros final fid final' fid' H ND NR DJ LT LR NO IN.
+  - cbn [handle_rewrite_fragments] in H. inversion H; subst. exists []. rewrite app_nil_r.
+    repeat split; [rewrite filter_all; [apply Permutation_refl | intros; reflexivity] | intros x [] | exact ND | lia].
+  - cbn [handle_rewrite_fragments] in H.
+    destruct (rg_old g) as [|first old_rest] eqn:EO; [discriminate|].
+    destruct (position_of first final) as [start|] eqn:EP; [|discriminate].
+    destruct (contiguous_from (skipn (S start) final) old_rest) as [contiguous|] eqn:EC; [|discriminate].
+    destruct (fragments_with_ids (rg_new g) fid) as [newf fid1] eqn:EF.
+    unfold reserved_ids in *. cbn [flat_map] in *. rewrite nz_ids_app in *. rewrite EO in *.
+    set (olds := first :: old_rest) in *.
+    destruct (fwi_ids _ _ _ _ EF) as [L1 [M1 D1]].
+    assert (NDnew : NoDup (frag_ids newf)).
+    { apply D1; [eapply NoDup_app_l; exact NR | intros x I; apply LR; apply in_or_app; left; exact I]. }
+    set (kept := filter (not_in olds) final).
+    assert (NDkept : NoDup (frag_ids kept)) by (unfold kept, frag_ids; apply NoDup_map_filter; exact ND).
+    assert (INkept : forall x, In x (frag_ids kept) -> In x (frag_ids final)) by (unfold kept, frag_ids; intros x I; eapply In_map_filter; exact I).
+    assert (DISJ : forall x, In x (frag_ids kept) -> ~ In x (frag_ids newf)).
+    { intros x I J. specialize (INkept x I). destruct (M1 x J) as [K|K].
+      - apply (DJ x INkept). apply in_or_app. left. exact K.
+      - specialize (LT x INkept). lia. }
+    (* the list after this group *)
+    assert (PERM : Permutation (if contiguous then firstn start final ++ newf ++ skipn (start + length olds) final
+                                else filter (fun f => negb (n_mem (fr_id f) olds)) final ++ newf) (kept ++ newf)).
+    { destruct contiguous; [|apply Permutation_refl].
+      destruct (position_of_split _ _ _ EP) as [pre [f0 [tl [Efin [Lpre Ef0]]]]].
+      assert (Etl : skipn (S start) final = tl).
+      { subst final start. replace (S (length pre)) with (length (pre ++ [f0])) by (rewrite app_length; cbn [length]; lia).
+        replace (pre ++ f0 :: tl) with ((pre ++ [f0]) ++ tl) by (rewrite <- app_assoc; reflexivity). apply skipn_all2 || (rewrite skipn_app, skipn_all, Nat.sub_diag; reflexivity). }
+      rewrite Etl in EC. destruct (contiguous_from_true _ _ EC) as [mid [post [Emid Eids]]].
+      assert (Efinal : final = pre ++ (f0 :: mid) ++ post) by (rewrite Efin, Emid; reflexivity).
+      assert (Eolds : frag_ids (f0 :: mid) = olds) by (unfold olds, frag_ids in *; cbn [map]; rewrite Ef0, Eids; reflexivity).
+      assert (F1 : firstn start final = pre) by (rewrite Efinal, <- Lpre; rewrite firstn_app, firstn_all, Nat.sub_diag; cbn [firstn]; apply app_nil_r).
+      assert (F2 : skipn (start + length olds) final = post).
+      { rewrite <- Eolds. unfold frag_ids. rewrite map_length, Efinal, <- Lpre.
+        rewrite app_assoc, <- app_length. rewrite skipn_app, skipn_all, Nat.sub_diag. reflexivity. }
+      rewrite F1, F2. unfold kept. rewrite <- Eolds. rewrite Efinal, filter_segment by (rewrite <- Efinal; exact ND).
+      rewrite <- app_assoc. apply Permutation_app_head. apply Permutation_app_comm. }
+    assert (ND1 : NoDup (frag_ids (kept ++ newf))) by (unfold frag_ids; rewrite map_app; apply NoDup_app_intro; assumption).
+    (* the old fragments of the remaining groups are still there *)
+    assert (NOapp : NoDup (olds ++ flat_map rg_old rest)) by exact NO.
+    assert (INrest : forall i, In i (flat_map rg_old rest) -> In i (frag_ids kept)).
+    { intros i I. specialize (IN i (in_or_app _ _ _ (or_intror I))). apply in_map_iff in IN as [f [Ef If]].
+      apply in_map_iff. exists f. split; [exact Ef|]. unfold kept. apply filter_In. split; [exact If|].
+      unfold not_in. apply negb_true_iff. apply n_mem_false. rewrite Ef. intro J. eapply NoDup_app_disj; [exact NOapp | exact J | exact I]. }
+    match type of H with handle_rewrite_fragments ?F1 _ _ = _ => set (final1 := F1) in * end.
+    assert (P1 : Permutation (frag_ids final1) (frag_ids (kept ++ newf))) by (apply frag_ids_perm; exact PERM).
+    destruct (IH final1 fid1 final' fid' H) as [N [PN [IDN [CN [NDF LF]]]]].
+    + eapply Permutation_NoDup; [apply Permutation_sym; exact P1 | exact ND1].
+    + eapply NoDup_app_r; exact NR.
+    + intros x I J. apply (Permutation_in _ P1) in I. unfold frag_ids in I. rewrite map_app in I. apply in_app_iff in I as [I|I].
+      * apply (DJ x (INkept x I)). apply in_or_app. right. exact J.
+      * destruct (M1 x I) as [K|K]; [eapply NoDup_app_disj; [exact NR | exact K | exact J] |].
+        assert (x < fid) by (apply LR; apply in_or_app; right; exact J). lia.
+    + intros x I. apply (Permutation_in _ P1) in I. unfold frag_ids in I. rewrite map_app in I. apply in_app_iff in I as [I|I];
+        [specialize (LT x (INkept x I)); lia|].
+      destruct (M1 x I) as [K|K]; [assert (x < fid) by (apply LR; apply in_or_app; left; exact K); lia | lia].
+    + intros x I. assert (x < fid) by (apply LR; apply in_or_app; right; exact I). lia.
+    + eapply NoDup_app_r; exact NOapp.
+    + intros i I. apply (Permutation_in _ (Permutation_sym P1)). unfold frag_ids. rewrite map_app. apply in_or_app. left. apply INrest. exact I.
+    + exists (newf ++ N). repeat split.
+      * eapply Permutation_trans; [exact PN|]. rewrite app_assoc. apply Permutation_app_tail.
+        eapply Permutation_trans; [apply filter_perm; exact PERM|]. rewrite filter_app. apply Permutation_app.
+        -- unfold kept. rewrite filter_filter. rewrite (filter_ext _ (not_in (olds ++ flat_map rg_old rest))); [apply Permutation_refl|].
+           intro f. rewrite not_in_app. reflexivity.
+        -- rewrite filter_all; [apply Permutation_refl|]. intros f I. unfold not_in. apply negb_true_iff. apply n_mem_false. intro J.
+           specialize (INrest _ J). apply (DISJ _ INrest). apply in_map. exact I.
+      * intros x I. unfold frag_ids in I. rewrite map_app in I. apply in_app_iff in I as [I|I].
+        -- destruct (M1 x I) as [K|K]; [left; apply in_or_app; left; exact K | right; lia].
+        -- destruct (IDN x I) as [K|K]; [left; apply in_or_app; right; exact K | right; lia].
+      * rewrite !flat_map_app_, CN. f_equal. pose proof (fwi_content c Hc (rg_new g) fid) as Q. rewrite EF in Q. exact Q.
+      * exact NDF.
+      * lia.
 Qed.
